@@ -562,7 +562,10 @@ class FromRange(Family):
 PROP = Property(
     id="C09",
     title="A drawn region becomes a selection of exactly the points the region contains",
-    theorems=[],
+    theorems=["C09.range_numeric", "C09.from_range_positions", "C09.range_categorical", "C09.categorical_roi",
+              "C09.rect_categorical", "C09.polygon_cat_cat", "C09.polygonised_cat_num", "C09.polygon_cat_num",
+              "C09.numeric_numeric", "C09.category_order_irrelevant", "C09.categories_ok", "C09.roi_selection",
+              "C09.rect_categorical_rotated_witness"],
     families=[FromRange(), Mpl(), Pli(), Sel()],
     trusted_base=["numpy comparisons / searchsorted / unique, matplotlib Path.contains_points (literal crossing rule, validated by the mpl L0 family), IEEE doubles on exactly representable inputs"],
     assumptions=["float evaluation of polygon/line intersections, rotations and the 100-gon approximation of circles/ellipses agrees with exact arithmetic outside the recorded boundary band (eps per case: 0 for exact paths, 2^-20 for float-affected paths, radius/900 for polygonised circles/ellipses)"],
